@@ -40,7 +40,17 @@ def compress_case_term(method, axis, arr, out):
 # ----------------------------------------------------------------------------- implementation
 def run_compress(arr, method, axis):
     """the real implementation; returns a numpy array (or raises)"""
-    return np.asarray(pnd.integer_ndarray(np.array(arr, dtype=np.int64)).ndint_compress(method=method, axis=axis))
+    a = np.array(arr, dtype=np.int64)
+    # the memory layout is the caller's business: C order, Fortran order or a transposed view, chosen from the data (a replay
+    # builds the same array); the values, and so the required answer, are the same
+    if a.ndim >= 2 and a.size:
+        k = (int(np.abs(a).sum() % 1000003) + a.size) % 3
+        if k == 1:
+            a = np.asfortranarray(a)
+        elif k == 2:
+            axes = tuple(reversed(range(a.ndim)))
+            a = np.ascontiguousarray(a.transpose(axes)).transpose(axes)
+    return np.asarray(pnd.integer_ndarray(a).ndint_compress(method=method, axis=axis))
 
 def valid_axes(method, ndim):
     if method in BATCHED:
